@@ -7,7 +7,7 @@ CLAIMED = {
  "C01": dict(
     technique="property-based testing (Hypothesis): generated networks, independent mass bookkeeping over result tables",
     text="Exploration: thousands of generated networks (all fluids, component mixes, outage patterns, label schemes, solver "
-         "configurations; heating loops incl. open loops with make-up grid and parallel pumps; meshed lattices of up to 100 / 625 junctions for the size-independence of the bound) per run; the oracle re-does the mass bookkeeping from the result tables alone with a round-off "
+         "configurations; heating loops incl. open loops with make-up grid and parallel pumps; meshed lattices of up to 100 / 625 junctions for the size-independence of the bound; one case in three on a net object with a history - earlier run under reuse_internal_data with other values, failed run, touched result tables) per run; the oracle re-does the mass bookkeeping from the result tables alone with a round-off "
          "tolerance (1e-9 relative). Counterexamples shrink to small recipes that are replayed without Hypothesis. No absence claim.",
     note="Trusted: numpy/pandas, the documented sign conventions of the result tables. Non-converged generated nets are discards. "
          "One known finding (automatic damping freezes the slack mass) is suppressed by a narrow signature.",
@@ -36,7 +36,7 @@ CLAIMED["C05"] = dict(
          "hydraulic and heating nets in all four modes with injected faults (absurd loads, iteration limits 0..3, zero tolerances, NaN "
          "parameters, contradictory controllers, no supply) - every stage is recorded by wrapping newton_raphson from outside; post-state after "
          "return (converged flag, finite results) and after raise (exception type, flag, no number in any result table); (3) histories of "
-         "successful and failing runs on one net object, with pickle / JSON round trips, deep copies and touched result tables between the runs.",
+         "successful and failing runs on one net object, with pickle / JSON round trips, deep copies and touched result tables between the runs, and partial supply outages on two-district nets judged against the reference reachability model.",
     note="Trusted: the outside wrappers do not change behaviour. Documented input rejections (UserWarning) are not counted as non-convergence. "
          "Two known findings (duplicate controlled junction; bidirectional+automatic restore) are suppressed by narrow signatures.",
     ref="DESIGN.md 4/C05")
@@ -45,14 +45,14 @@ CLAIMED["C07"] = dict(
     text="Exploration: (1) the twin kernels are called directly with generated pit arrays over-sampling zero / tiny / NaN flow, equal end "
          "pressures, zero length, switched direction and compared to 1e-12 relative; (2) generated hydraulic and heating nets are solved "
          "with both engines in all modes and compared (NaN pattern, cross-run tolerance, convergence verdict); (3) generated load-edit "
-         "histories on one net object with only_update_hydraulic_matrix + reuse_internal_data are compared bit-exactly with a fresh net.",
+         "histories on one net object (loads, fluid temperature, fixed pressures, pipe lengths, set-points under only_update_hydraulic_matrix + reuse_internal_data; switching steps with fresh data) are compared bit-exactly with a fresh net.",
     note="Trusted: the comparison tolerances of DESIGN 2.3 (Re/lambda lag the mass flow by one Newton step). Derivatives of the mean pressure "
          "are compared only for |dp| > 1e-4 p (unbounded cancellation). Transient kernels out of scope. Known finding: dead-end pump verdict.",
     ref="DESIGN.md 4/C07")
 CLAIMED["C02"] = dict(
     technique="property-based testing (Hypothesis) against an independent re-implementation of the documented momentum equation and friction models",
     text="Exploration: generated networks (all library fluids, three friction models, both engines, heights, loss coefficients, multi-section "
-         "pipes, ju/pi valves, heat exchangers, reverse flow, label variants; bidirectional heating loops) are solved with tight tolerances; for "
+         "pipes, ju/pi valves, heat exchangers, reverse flow, label variants; bidirectional heating loops; one case in three on a net object with a history, see recipe.solve_after_prelude) are solved with tight tolerances; for "
          "every flowing pipe (section), valve and heat exchanger the documented momentum equation is re-evaluated from the reported end "
          "pressures, mass flow and temperatures by refphys (own fluid-table parser, own Colebrook root finder), residual bound 1e-7 bar; "
          "reported Re, lambda, velocities, volume flows and norm factors must follow from the reported state.",
@@ -65,7 +65,7 @@ CLAIMED["C03"] = dict(
          "service), pressure / flow controllers (control_active on/off), compressors, pumps, circulation pumps and scaled loads; each "
          "documented set-point clause (mean ext-grid pressure, p_flow, controlled pressure, set mass flow, lift, absolute pressure ratio incl. "
          "hydrostatic term, pump curve at the reported volume flow, mdot*scaling) is an identity on the result tables with round-off "
-         "tolerances (plus one Newton step for quantities evaluated from the previous iterate).",
+         "tolerances (plus one Newton step for quantities evaluated from the previous iterate); one case in three on a net object with a history (earlier run with other set-points under reuse_internal_data, failed run, touched result tables).",
     note="Trusted: pump curve = numpy.polyval of the type's reg_par; over-determined junctions (ext grid + controlled junction) are not asserted; "
          "no clause at exactly zero flow through a pump/compressor (discontinuous lift).",
     ref="DESIGN.md 4/C03")
@@ -73,7 +73,7 @@ CLAIMED["C04"] = dict(
     technique="exhaustive enumeration of 2^k status-flag patterns on fixed topologies + Hypothesis-generated outage patterns, against a reference reachability model and a deleted-rest differential",
     text="Exploration with exhaustive sub-spaces: all 2^k patterns of in_service / opened / control_active flags (branches, ju and pi valves, "
          "flow controllers, heat consumers, junctions, feeders) on four fixed topologies (incl. junction-pipe valves at both ends of a pipe and in parallel, duty + stand-by pressure controller) are enumerated completely (k=8 quick, 10-12 thorough) "
-         "and generated nets with outage patterns are added; for each the NaN pattern of every result table (hydraulic and thermal columns) "
+         "and generated nets with outage patterns are added (one in three calculated on a net that was first calculated with everything in service); for each the NaN pattern of every result table (hydraulic and thermal columns) "
          "is compared with an independent BFS reachability model, the results are compared with those of the recipe from which everything "
          "unsupplied / out of service was deleted, and a net without supplied junction must raise PipeflowNotConverged.",
     note="Trusted: the reachability model of vp/refmodel.py (closed junction-pipe valve = open pipe end; reached out-of-service junctions are "
@@ -174,7 +174,7 @@ CLAIMED["C15"] = dict(
          "DFData and optionally results, plus multinets with a P2G controller, are written and read through JSON string, JSON file, "
          "encrypted JSON and pickle. Oracles: nets_equal, an own comparison of every table (values, dtypes, index dtype, columns), fluid and "
          "standard-type fingerprints evaluated on a grid, component list, sector, name, user options, converged flag, and a pipeflow on the "
-         "loaded net.",
+         "loaded net; one case in three loads the stored text twice, the first loaded copy being changed in place in between.",
     note="Trusted: JSON keeps 15 decimal places (pandas / pandapower encoder) - JSON paths compared with 1e-15 abs + 1e-14 rel, pickle exactly. "
          "Known finding: inf (default max_m_stored_kg) becomes NaN in JSON.",
     ref="DESIGN.md 4/C15")
